@@ -437,6 +437,12 @@ func tightenCustom(src string, regs []opReg) string {
 		if r.role == "infix" && r.word == "" && r.builtin == 0 {
 			src = strings.ReplaceAll(src, " "+r.text()+" ", r.text())
 		}
+		if r.role == "prefix" && r.word == "" && r.builtin == 0 {
+			src = strings.ReplaceAll(src, r.text()+" ", r.text()) // `# !a` becomes `#!a`
+		}
+		if r.role == "postfix" && r.word == "" && r.builtin == 0 {
+			src = strings.ReplaceAll(src, " "+r.text(), r.text())
+		}
 	}
 	return src
 }
